@@ -16,7 +16,9 @@ ASSUMPTIONS = [
 GATES = ["mon.C20.shadow", "mon.C20.structure", "C20.link_to_link", "C20.link_other_tree", "C20.ctor_kwargs", "C20.ctor_kwargs_on_link_target", "C20.write_via_link", "C20.write_via_target",
          "C20.missing_attr_raises", "C20.struct_on_link", "C20.struct_on_target", "C20.veto", "C20.falsy_target", "C20.property_target", "C20.equal_but_distinct_value", "C20.target_reassigned", "C20.refused_by_target"]
 
-NAMES = ["foo", "bar", "baz", "x1", "value_", "lng", "k9", "_p", "__q", "name", "été", "data", "t", "get", "tar", "a"]
+NAMES = ["foo", "bar", "baz", "x1", "value_", "lng", "k9", "_p", "__q", "name", "été", "data", "t", "get", "tar", "a",
+         # names that merely start with / contain one of the three structural names
+         "parent_id", "parents", "children_count", "target_path", "my_target", "grandparent"]
 
 
 def plan(tier, seed, jobs):
